@@ -114,7 +114,7 @@ def strategy(tier, shard, nshards):
 def budget(tier):
     if tier == "quick":
         return {"examples": 1, "shards": 16, "guard_s": 1500, "case_guard_s": 900}
-    return {"examples": 40, "shards": 16, "guard_s": 14000, "case_guard_s": 1800}
+    return {"examples": 40, "shards": 16, "guard_s": 9000, "case_guard_s": 1800}
 
 
 # ------------------------------------------------------ the history itself
